@@ -19,6 +19,7 @@ LIB = {
     "pkg/s.py": "f = 'pkg.s.f'\nx = 'pkg.s.x'\n",
     "pkg/t.py": "g = 'pkg.t.g'\ny = 'pkg.t.y'\n",
     "pkg/la.py": "x = 'pkg.la.x'\nk2 = 'pkg.la.k2'\n",          # a sibling shadowing the top-level module la
+    "pkg/types.py": "tk = 'pkg.types.tk'\ntq = 'pkg.types.tq'\n",  # a sibling named like a standard module
     "pkg/sub/__init__.py": "",
     "pkg/sub/s.py": "f = 'pkg.sub.s.f'\nk3 = 'pkg.sub.s.k3'\n",  # same module text as pkg/s.py one level up
     "pkg/sub/deep/__init__.py": "",
@@ -57,6 +58,9 @@ class World:
         for name, attrs in STD.items():
             self.mods[name] = dict(attrs=list(attrs), all=None, pkg=False, where="std", strs=set())
         self.mods[("__future__",)] = dict(attrs=list(FUTURE), all=None, pkg=False, where="std", strs=set())
+        # the module under test itself (it may import itself): its attributes are whatever it defines
+        for pkg in ((), ("pkg",), ("pkg", "sub")):
+            self.mods[pkg + ("m",)] = dict(attrs=[], all=None, pkg=False, where="proj", strs=set(), me=True)
 
     @staticmethod
     def _attrs(src):
@@ -223,6 +227,9 @@ class Resolver:
         for a in primary[1:]:
             if obj[0] == "mod":
                 m = obj[1]
+                if self.w.mods[m].get("me"):
+                    obj = ("val", m, (a,))
+                    continue
                 if a in self.w.mods[m]["attrs"] and not (m + (a,) in self.w.mods and m + (a,) in self.loaded):
                     obj = ("val", m, (a,))
                 elif m + (a,) in self.w.mods:
@@ -287,7 +294,10 @@ class _Used(ast.NodeVisitor):
         self.stack.pop()
 
     def visit_FunctionDef(self, node):
-        outer = list(node.decorator_list) + list(node.args.defaults) + [d for d in node.args.kw_defaults if d]
+        a = node.args
+        every = list(a.posonlyargs) + list(a.args) + list(a.kwonlyargs) + [x for x in (a.vararg, a.kwarg) if x]
+        outer = (list(node.decorator_list) + list(a.defaults) + [d for d in a.kw_defaults if d]
+                 + [x.annotation for x in every if x.annotation] + ([node.returns] if node.returns else []))
         self._scoped(node, node.name, outer, node.body)
 
     visit_AsyncFunctionDef = visit_FunctionDef
@@ -371,8 +381,12 @@ NORMAL_POOL = [
     [(("pkg", "sub", "deep", "mod"), "dm")], [(("pkg", "sub", "deep"), None)], [(("pkg", "sub"), None)],
 ]
 FROM_MODS = [("la",), ("lb",), ("lc",), ("pkg",), ("pkg", "s"), ("pkg", "t"), ("ext1",), ("os",), ("os", "path"),
-             ("pkg", "sub", "deep"), ("pkg", "sub", "deep", "mod"), ("pkg", "la"), ("pkg", "sub", "s"), ("pkg", "sub")]
-STAR_MODS = [("la",), ("lb",), ("pkg", "s"), ("pkg", "t"), ("ext1",), ("pkg", "la"), ("pkg", "sub", "s"), ("lc",)]
+             ("pkg", "sub", "deep"), ("pkg", "sub", "deep", "mod"), ("pkg", "la"), ("pkg", "sub", "s"), ("pkg", "sub"),
+             ("pkg", "types")]
+# siblings whose module text, written relatively, is also the name of a top-level or standard module
+CLASH_MODS = [("pkg", "la"), ("pkg", "types"), ("pkg", "sub", "s")]
+STAR_MODS = [("la",), ("lb",), ("pkg", "s"), ("pkg", "t"), ("ext1",), ("pkg", "la"), ("pkg", "sub", "s"),
+             ("pkg", "types"), ("lc",)]
 ALIASES = ["q", "x", "y", "s", "u"]
 
 
@@ -380,6 +394,8 @@ def importable_names(mod):
     m = WORLD.mods[mod]
     names = [a for a in m["attrs"] if not a.startswith("__")]
     for other in WORLD.mods:
+        if WORLD.mods[other].get("me"):
+            continue
         if len(other) == len(mod) + 1 and other[:len(mod)] == mod and other[-1] not in names:
             names.append(other[-1])
     return names
@@ -391,19 +407,24 @@ def gen_info(rng, place, cfg):
         return ("N", list(rng.choice(NORMAL_POOL)))
     if k < cfg["p_normal"] + cfg["p_star"]:
         mod = rng.choice(STAR_MODS if cfg["lc_star"] else STAR_MODS[:-1])
+        if place != "top" and rng.random() < 0.3:
+            mod = rng.choice(CLASH_MODS)
         forms = relative_forms(place, mod)
         m, lvl = rng.choice(forms) if rng.random() < 0.6 else forms[0]
         if not m:
             m, lvl = forms[0]
         return ("S", m, lvl)
     mod = rng.choice(FROM_MODS)
+    if place != "top" and rng.random() < 0.2:
+        mod = rng.choice(CLASH_MODS)
     names = importable_names(mod)
     if not cfg["private"]:
         names = [n for n in names if not n.startswith("_")] or names
     cnt = 1 if rng.random() < 0.6 else rng.randint(2, 3)
     pairs = []
-    for _ in range(cnt):
-        n = rng.choice(names)
+    distinct = rng.sample(names, min(cnt, len(names))) if rng.random() < 0.6 else None   # several different names
+    for k in range(cnt):
+        n = distinct[k % len(distinct)] if distinct else rng.choice(names)
         alias = rng.choice(ALIASES) if rng.random() < cfg["p_alias"] else None
         if rng.random() < 0.04:
             alias = n
@@ -411,6 +432,22 @@ def gen_info(rng, place, cfg):
     forms = relative_forms(place, mod)
     m, lvl = rng.choice(forms) if rng.random() < 0.6 else forms[0]
     return ("F", m, lvl, pairs)
+
+
+def self_name(place):
+    return package_of(place) + ("m",)
+
+
+def self_spellings(place, infos):
+    """the names under which the module under test imports itself"""
+    me = self_name(place)
+    out = []
+    for i in infos:
+        if i[0] == "N":
+            out.extend(al or ".".join(d) for d, al in i[1] if tuple(d) == me)
+        elif i[0] == "F" and absolute(place, i[1], i[2]) == me[:-1]:
+            out.extend(al or n for n, al in i[3] if n == "m")
+    return out
 
 
 def twin_levels(place):
@@ -497,6 +534,23 @@ def gen_module(rng, place, cfg=None):
             names = [n for n in importable_names(mod) if not n.startswith("_")]
             if names:
                 infos.insert(rng.randrange(len(infos) + 1), ("F", text, lvl, [(rng.choice(names), None)]))
+    if place != "top" and rng.random() < 0.2:              # a relative from-import of several different names
+        mod = rng.choice([m for m in FROM_MODS if len(relative_forms(place, m)) > 1])
+        names = [n for n in importable_names(mod) if not n.startswith("_")]
+        rel = [f for f in relative_forms(place, mod) if f[1] > 0]
+        if len(names) >= 2 and rel:
+            text, lvl = rng.choice(rel)
+            infos.insert(rng.randrange(len(infos) + 1), ("F", text, lvl, [(n, None) for n in rng.sample(names, 2)]))
+    me = None
+    if rng.random() < 0.12:                                # the module imports itself
+        sn = self_name(place)
+        # (inside a package `import pkg.m` + pkg.m.attr fails while pkg.m is still being imported: the
+        # submodule attribute is set on the package only afterwards)
+        forms = [("N", [(sn, "me")])] + ([("N", [(sn, None)])] if place == "top" else [])
+        if place != "top":
+            forms += [("F", sn[:-1], 0, [("m", None)]), ("F", (), 1, [("m", None)]), ("F", (), 1, [("m", "me")])]
+        me = rng.choice(forms)
+        infos.insert(rng.randrange(len(infos) + 1), me)
     future = None
     if rng.random() < 0.15:
         future = ("F", ("__future__",), 0, [(rng.choice(FUTURE), None)])
@@ -518,10 +572,41 @@ def gen_module(rng, place, cfg=None):
     funcs, classes, uses = [], [], []
     exported = []
     fnames = []
+    helpers = {}
+    bound = [b for b in bound if not (res.env[b][0] == "mod" and WORLD.mods[res.env[b][1]].get("me"))]
     for name in bound:
         k = rng.random()
-        if k < 0.30:
+        if k < 0.26:
             continue                                        # unused
+        # positions evaluated at definition time in the ENCLOSING scope
+        if k < 0.27:
+            f = fresh("g")
+            classes.append("def %s() -> %s:\n    return 1" % (f, expr(name)))
+            uses.append("print(%s())" % f)
+            continue
+        if k < 0.28:
+            f = fresh("g")
+            classes.append("def %s(a: %s = 1):\n    return a" % (f, expr(name)))
+            uses.append("print(%s())" % f)
+            continue
+        if k < 0.285:
+            c = fresh("C")
+            helpers["_Base"] = "class _Base:\n    def __init_subclass__(cls, **kw):\n        pass"
+            classes.append("class %s(_Base, tag=%s):\n    pass" % (c, expr(name)))
+            uses.append("print(%s.__name__)" % c)
+            continue
+        if k < 0.29:
+            f = fresh("g")
+            helpers["_deco"] = "def _deco(*a):\n    def w(f):\n        return f\n    return w"
+            classes.append("@_deco(%s)\ndef %s():\n    return 2" % (expr(name), f))
+            uses.append("print(%s())" % f)
+            continue
+        if k < 0.30:
+            c = fresh("C")
+            helpers["_mk"] = "def _mk(*a):\n    return object"
+            classes.append("class %s(_mk(%s)):\n    pass" % (c, expr(name)))
+            uses.append("print(%s.__name__)" % c)
+            continue
         if k < 0.55:
             uses.append("print(%s)" % expr(name))
         elif k < 0.59:
@@ -578,6 +663,20 @@ def gen_module(rng, place, cfg=None):
                 path = ".".join((other,) + obj[1][len(o2[1]):] + obj[2])
                 uses.append("print(%s, %s)" % (name, path))
                 break
+    if me is not None:                                     # uses of the module's own definitions through itself
+        spelling = self_spellings(place, [me])[0]
+        own = fnames[:2] or None
+        if own is None:
+            f = fresh("g")
+            funcs.append("def %s():\n    return 5" % f)
+            own = [f]
+        for f in own:
+            uses.append("print(%s.%s())" % (spelling, f))
+        if rng.random() < 0.5:                              # the module object itself, then a dotted use
+            if rng.random() < 0.5:
+                uses.append("print([%s][0].__name__, %s.%s())" % (spelling, spelling, own[0]))
+            else:                                           # blanks in the text up to the next dot
+                uses.append("print(len([%s, 0]), %s.%s())" % (spelling, spelling, own[0]))
     if exported or (cfg["all"] and rng.random() < 0.1):
         if fnames and rng.random() < 0.5:
             exported.append(fnames[0])
@@ -608,7 +707,7 @@ def gen_module(rng, place, cfg=None):
         out.append(line)
     for _ in range(rng.choice([0, 1, 2, 2, 3]) if odd else 2):
         out.append("")
-    for f in pending_funcs + classes:
+    for f in pending_funcs + [helpers[h] for h in sorted(helpers)] + classes:
         out.append(f)
         out.append("")
     if exported:
